@@ -205,10 +205,15 @@ def long_line_scope(res, pid, rng, tier):
     fa_ = FileAnonymizer(anon_pwd=False, anon_ip=True, salt="longline", preserve_networks=list(nets), preserve_suffix_v4=8, preserve_suffix_v6=8)
     toks = ["11.22.33.44", "10.20.30.40", "255.255.252.0", "198.51.100.7", "2001:db8:203::d", "2001:db8:0:1:2:3:4:5"]
     lines = []
-    for off in (8192, 65536, 131072):
-        for t in toks:
+    offs = (1024, 2048, 4096, 8192, 16384, 32768, 65536, 131072) if tier == "thorough" else (4096, 8192, 65536, 131072)
+    for off in offs:
+        for ti, t in enumerate(toks):
             for j in (1, len(t) // 2, len(t) - 1):
                 lines.append("remark " + "y" * (off - 7 - j - 1) + " " + t + " end " + t)
+                if (ti + j + res.seed) % 3 == 0:
+                    # the same offset inside a stretch without any white space (comma separated list)
+                    k = (off - 7 - j) // 2
+                    lines.append("remark " + "y," * k + ("" if (off - 7 - j) % 2 == 0 else ";") + t + ",end," + t)
     need = {4: set(), 6: set()}
 
     def collect(f, a):
